@@ -12,6 +12,8 @@ from ..refs import maxerr
 
 PROPERTY = "C04"
 ENGINE = "E2"
+TECHNIQUE = "bounded-exhaustive enumeration of simple lattice polygons x start vertex x normal x placement vs exact rational shoelace integrals"
+LEVEL_TEXT = "Every simple polygon with <=5 vertices on a 4x4 lattice, in both orientations, from every start vertex, with default and explicit normals, is executed in 3-D and in-plane placements and decided against exact rational integrals."
 RULE = (
     "cases = every simple lattice polygon of P2(n,4) modulo translation (both orientations) x every cyclic start (so every vertex, "
     "reflex ones included, becomes the vertex that determines the default normal) x normal in {default,+n,-n} x placement "
